@@ -107,13 +107,22 @@ def check_form_flow(prog, rep):
         q = 'MPS.' + f.name
         for st, val in [(s0, v) for s0 in stmts_of(f) for t, v in split_assign(s0)
                         if is_self_attr(t, '_B')]:
+            val0 = val
             if isinstance(val, ast.Name):
                 # resolve a local that holds the new list
                 nm = val.id
                 for s0 in stmts_of(f):
                     if isinstance(s0, ast.Assign) and unparse(s0.targets[0]) == nm:
                         val = s0.value
-            calls = [c for c in ast.walk(val) if isinstance(c, ast.Call) and
+            vals = [val]
+            if isinstance(val0, ast.Name):
+                # ... or a list that is filled by append / extend
+                for c0 in body_nodes(f):
+                    if isinstance(c0, ast.Call) and isinstance(c0.func, ast.Attribute) and \
+                            c0.func.attr in ('append', 'extend') and isinstance(
+                                c0.func.value, ast.Name) and c0.func.value.id == val0.id:
+                        vals.extend(c0.args)
+            calls = [c for v_ in vals for c in ast.walk(v_) if isinstance(c, ast.Call) and
                      dotted(c.func) == 'self.get_B']
             if not calls:
                 continue
